@@ -436,6 +436,108 @@ Definition e2e_inject_judge (case out : list Z) : bool :=
       end
   end.
 
+(* ------------------------------------------------------------------------------------------ *)
+(* e2e_pn (C08): packet numbers and acknowledgements                                          *)
+(* ------------------------------------------------------------------------------------------ *)
+(* [1, watchdog, connect_ok, end_us, max_ack_delay_us, capped, n_rows, rows x8]
+   row = (kind, endpoint, space, a, b, t_us, _, _), in order of occurrence:
+   0 packet built for sending (a = packet number, b = ack eliciting)
+   1 packet processed (a = packet number, b = ack eliciting)
+   2 one range a..=b of an ACK frame this endpoint sends
+   3 keys of the space discarded       4 the connection ended at this endpoint *)
+
+Record xrow := { x_k : Z; x_ep : Z; x_sp : Z; x_a : Z; x_b : Z; x_t : Z; x_c : Z; x_d : Z }.
+Definition mk_xrow (r : list Z) : xrow :=
+  {| x_k := nz r 0; x_ep := nz r 1; x_sp := nz r 2; x_a := nz r 3; x_b := nz r 4; x_t := nz r 5;
+     x_c := nz r 6; x_d := nz r 7 |}.
+
+(* row [r] is of kind [k] and belongs to endpoint [ep], space [sp] *)
+Definition row_is (k ep sp : Z) (r : xrow) : bool := (x_k r =? k) && (x_ep r =? ep) && (x_sp r =? sp).
+
+(* (1) the packet numbers an endpoint uses in a space strictly increase *)
+Fixpoint incr1 (ep sp last : Z) (l : list xrow) : bool :=
+  match l with
+  | [] => true
+  | r :: t => if row_is 0 ep sp r then (last <? x_a r) && incr1 ep sp (x_a r) t else incr1 ep sp last t
+  end.
+
+(* (2) every acknowledged range consists of packet numbers processed before.  The processed
+   numbers are kept as closed intervals; a range may span several adjacent intervals. *)
+Definition in_iv (x : Z) (iv : Z * Z) : bool := (fst iv <=? x) && (x <=? snd iv).
+
+Fixpoint add_pn (p : Z) (ivs : list (Z * Z)) : list (Z * Z) :=
+  match ivs with
+  | [] => [(p, p)]
+  | (lo, hi) :: t =>
+      if (lo <=? p) && (p <=? hi) then (lo, hi) :: t
+      else if p =? hi + 1 then (lo, p) :: t
+      else if p =? lo - 1 then (p, hi) :: t
+      else (lo, hi) :: add_pn p t
+  end.
+
+Fixpoint covers (ivs : list (Z * Z)) (lo hi : Z) (fuel : nat) : bool :=
+  match fuel with
+  | O => false
+  | S f => match find (in_iv lo) ivs with
+           | None => false
+           | Some iv => if hi <=? snd iv then true else covers ivs (snd iv + 1) hi f
+           end
+  end.
+
+Fixpoint ack1 (ep sp : Z) (ivs : list (Z * Z)) (l : list xrow) : bool :=
+  match l with
+  | [] => true
+  | r :: t =>
+      if row_is 1 ep sp r then ack1 ep sp (add_pn (x_a r) ivs) t
+      else if row_is 2 ep sp r
+      then (x_a r <=? x_b r) && covers ivs (x_a r) (x_b r) (S (length ivs)) && ack1 ep sp ivs t
+      else ack1 ep sp ivs t
+  end.
+
+(* (3) application space: an ack-eliciting packet that is the largest processed so far is covered
+   by an ACK frame sent no later than processing time + max_ack_delay + slack, unless the
+   connection ended or the recording stopped before that.  (Packets below the largest are left
+   to RFC 9000 13.2.3/13.2.4: a receiver may limit the ranges it keeps and stops reporting
+   ranges it knows the peer has seen; Initial and Handshake are left out because keys may be
+   unavailable or discarded and the server may be amplification limited there.) *)
+Definition ACK_SLACK_US := 5000.
+
+Definition closes (ep : Z) (r : xrow) : bool := (x_k r =? 4) && (x_ep r =? ep).
+
+Fixpoint ackt (ep d endt : Z) (pend : list (Z * Z)) (largest : Z) (l : list xrow) : bool :=
+  match l with
+  | [] => forallb (fun p => endt <=? snd p) pend
+  | r :: t =>
+      forallb (fun p => x_t r <=? snd p) pend &&
+      (if closes ep r then true
+       else if row_is 2 ep 2 r
+       then ackt ep d endt (filter (fun p => negb ((x_a r <=? fst p) && (fst p <=? x_b r))) pend) largest t
+       else if row_is 1 ep 2 r
+       then ackt ep d endt
+              (if (x_b r =? 1) && (largest <? x_a r) then (x_a r, x_t r + d) :: pend else pend)
+              (Z.max largest (x_a r)) t
+       else ackt ep d endt pend largest t)
+  end.
+
+Fixpoint times_ok (last : Z) (l : list xrow) : bool :=
+  match l with
+  | [] => true
+  | r :: t => (last <=? x_t r) && times_ok (x_t r) t
+  end.
+
+Definition pn_monitor (endt mad : Z) (l : list xrow) : bool :=
+  times_ok 0 l &&
+  forallb (fun ep => forallb (fun sp => incr1 ep sp (-1) l && ack1 ep sp [] l) [0; 1; 2]) [0; 1] &&
+  ackt 0 (mad + ACK_SLACK_US) endt [] (-1) l && ackt 1 (mad + ACK_SLACK_US) endt [] (-1) l.
+
+Definition e2e_pn_judge (case out : list Z) : bool :=
+  if negb ((nz out 0 =? 1) && Nat.leb 7 (length out)) then false else
+  match take_rows 8 (nz out 6) (skipn 7 out) with
+  | Some (rws, []) =>
+      pn_monitor (nz out 3) (nz out 4) (map mk_xrow rws)
+  | _ => false
+  end.
+
 (* the same trace judged for one property only (so that each property's check reports only its own
    violations when the component is attached to several properties) *)
 Definition stream_part (m : strace -> bool) (out : list Z) : bool :=
